@@ -382,3 +382,26 @@ def preprocessed_hash_text(src):
     out = subprocess.run([CLANG, '-E', '-P', '-x', 'c', '-'] + INCLUDES, input=src.encode(), stdout=subprocess.PIPE, stderr=subprocess.PIPE)
     if out.returncode != 0: raise BuildError('preprocess failed: %s' % out.stderr.decode()[-2000:])
     return hashlib.sha256(out.stdout).hexdigest()[:20]
+
+
+def callees_of(tu, fnames, flags=()):
+    """names of the functions called directly inside the given functions of a TU, with a C return type guess for stub generation"""
+    sym, raw, h = lower(tu, flags)
+    txt = open(raw).read()
+    out = {}
+    for fn in fnames:
+        m = re.search(r'^define [^\n]*@%s\(.*?^}' % re.escape(fn), txt, re.M | re.S)
+        if not m: continue
+        for cm in re.finditer(r'call\s+(?:[\w]+\s+)*?(void|i\d+|double|float|%[\w.]+\*+|i\d+\*+)\s+(?:\([^)]*\)\s+)?@([A-Za-z_]\w*)\(', m.group(0)):
+            rt, name = cm.group(1), cm.group(2)
+            if name.startswith('llvm'): continue
+            out[name] = 'double' if rt == 'double' else 'float' if rt == 'float' else 'void' if rt == 'void' else 'long'
+    return out
+
+
+def logging_stubs_c(callees, skip=()):
+    s = ''
+    for name, rt in sorted(callees.items()):
+        if name in skip: continue
+        s += '%s vfstub_%s(void) { vf_log_call("%s"); %s }\n' % (rt, name, name, '' if rt == 'void' else 'return 0;')
+    return s
